@@ -441,6 +441,36 @@ class FnText:
     def add_start(self, text, origin):
         self.edits.append((self.body_open + 1, self.body_open + 1, '\n' + text.rstrip() + '\n', origin))
 
+    def forloop(self, n, name, break_text, origin):
+        """T12: Verus rejects `continue` inside `for` wherever it stands (nested blocks, match arms).  The n-th
+        loop `for PAT in EXPR { BODY }` is written as what rustc desugars it to,
+            { let mut NAME = (EXPR).into_iter(); loop { let Some(PAT) = NAME.next() else { <ghost text> break; }; BODY } }
+        (`loop` takes `continue`; @loop N text lands between `loop` and `{`)."""
+        ls = self.loops()
+        if n > len(ls):
+            raise Unsupported(f'{self.name}: @forloop {n}: function has {len(ls)} loops')
+        i = ls[n - 1]
+        if self.stok(i).text != 'for':
+            raise Unsupported(f'{self.name}: @forloop {n}: not a for loop')
+        j = i + 1
+        depth = 0
+        while not (self.stok(j).text == 'in' and depth == 0):
+            if self.stok(j).text in '([':
+                depth += 1
+            elif self.stok(j).text in ')]':
+                depth -= 1
+            j += 1
+        k = self.loop_body_open(i)
+        c = self.match(k)
+        pat = self.text[self.stok(i + 1).start:self.stok(j - 1).end]
+        expr = self.text[self.stok(j + 1).start:self.stok(k - 1).end]
+        self.edits.append((self.stok(i).start, self.stok(k - 1).end,
+                           f'{{ let mut {name} = ({expr}).into_iter(); loop', ('T12', f'forloop {n}')))
+        ghost = ('\n' + break_text.rstrip() + '\n') if break_text.strip() else ' '
+        self.edits.append((self.stok(k).start, self.stok(k).end,
+                           f'{{ let Some({pat}) = {name}.next() else {{{ghost}break; }};', origin))
+        self.edits.append((self.stok(c).end, self.stok(c).end, ' }', ('T12', f'forloop {n}')))
+
     def loopvar(self, n, name):
         ls = self.loops()
         if n > len(ls):
@@ -537,6 +567,10 @@ class FnText:
         if isinstance(key, str) and ':' in key:
             meth, k = key.split(':')
             sel = [c for c in cs if self.closure_callee(c[0]) == meth]
+            if k == 'last':   # `method:last` = the textually last closure passed to `method`
+                if not sel:
+                    raise Unsupported(f'{self.name}: @{what} {key}: function has no closure passed to {meth}()')
+                return sel[-1]
             if int(k) > len(sel):
                 raise Unsupported(f'{self.name}: @{what} {key}: function has {len(sel)} closures passed to {meth}()')
             return sel[int(k) - 1]
@@ -854,6 +888,10 @@ def process_extract(block_text, tmpl_path, tmpl_line, report):
         elif d == 'loopvar':
             n, nm = arg.split()
             ft.loopvar(int(n), nm)
+        elif d == 'forloop':
+            n, nm = arg.split()
+            ft.forloop(int(n), nm, payload, origin)
+            info['clauses'] += count_clauses(payload)
         elif d == 'closure':
             m = re.match(r'([\w:]+)\s+(.*)$', arg + ('\n' + payload if payload.strip() else ''), re.S)
             ft.annotate_closure(m.group(1), m.group(2), origin, lets.get(m.group(1), ''))
